@@ -14,6 +14,7 @@ binaryornot's answers as oracle tables) for the driver op `e2e`.  The oracle is 
 the executable readings of the property texts that the other checks already use: c03.spec_covered (covered files),
 c05.denotes (globs), c04.spec_items (sources and precedence), reports_common.expected_of / clauses_of (categories, verdict).
 """
+import functools
 import io
 import json
 import os
@@ -345,6 +346,32 @@ def run_impl(case):
         res["files"] = files
         res["status"] = "ok"
         return json.dumps(res, sort_keys=True)
+
+
+@functools.lru_cache(maxsize=None)
+def canon_expr_text(v):
+    """license-expression holds the expressions of one source as a set and compares AND / OR without regard to the order of
+    their operands ('A AND B' == 'B AND A'): which of two equal expressions is printed depends on the set's iteration order.
+    Both sides are therefore compared modulo that equality: operands sorted, recursively."""
+    from reuse import _LICENSING
+
+    def canon(e):
+        args = getattr(e, "args", ())
+        if not args:
+            return str(e)
+        return "(%s %s)" % (e.operator.strip(), " ".join(sorted({canon(a) for a in args})))
+    try:
+        return canon(_LICENSING.parse(v))
+    except Exception:
+        return v
+
+
+def canon_files(files):
+    out = {}
+    for p, items in files.items():
+        uniq = {json.dumps([k, src, canon_expr_text(v) if k == "L" else v]) for k, src, v in items}
+        out[p] = sorted(uniq)
+    return out
 
 
 # ----------------------------------------------------------------------------
@@ -746,9 +773,10 @@ class E2EModelStream(Stream):
     def __init__(self):
         self._model_cache = {}
         self._pending = []
+        self.hyp_count = {}
 
     def cases(self, tier, rng):
-        n = {"quick": 450, "thorough": 4000}[tier]
+        n = {"quick": 400, "thorough": 4000}[tier]
         out = [gen_case(rng) for _ in range(n)]
         self._pending = list(out)
         return out
@@ -775,7 +803,15 @@ class E2EModelStream(Stream):
 
     def model_out(self, case, outs):
         mc = model_canon(self._model_cache[self._key(case)])
-        return mc if isinstance(mc, str) else mc[0]
+        if isinstance(mc, str):
+            return mc
+        # theorem-hypothesis tie: the driver evaluated plainNames and noEmptyNoticeB (the decidable hypotheses of
+        # C01_e2e_verdict_partial) on this case; where they hold the theorem's conclusion — verdict <-> clauses (a)-(d) on
+        # the tree — is demanded of the implementation in `agree`
+        self.hyp_count[mc[1]] = self.hyp_count.get(mc[1], 0) + 1
+        d = json.loads(mc[0])
+        d["hyp"] = mc[1]
+        return json.dumps(d, sort_keys=True)
 
     def agree(self, case, impl_out, model_out):
         if impl_out.startswith("EXC") or model_out.startswith("MODEL"):
@@ -783,8 +819,14 @@ class E2EModelStream(Stream):
         a, b = json.loads(impl_out), json.loads(model_out)
         if a.get("status") != "ok" or b.get("status") != "ok":
             return a.get("status") == b.get("status")
-        for k in CATS + ("exit", "compliant", "used", "files"):
+        for k in CATS + ("exit", "compliant", "used"):
             if a[k] != b[k]:
+                return False
+        if canon_files(a["files"]) != canon_files(b["files"]):
+            return False
+        if b.get("hyp") == "11":
+            exp = truth(case)
+            if exp["status"] == "ok" and (a["exit"] == 0) != (not exp["violated"]):
                 return False
         return True
 
@@ -801,8 +843,9 @@ class E2EModelStream(Stream):
             a, b = set(got["files"]), set(exp["files"])
             return "file-list: reported but not a readable covered file %s; covered but not reported %s" % (sorted(a - b), sorted(b - a))
         for p in sorted(exp["files"]):
-            g = sorted({json.dumps([k, src, keys_of_rendered(v) if k == "L" else v]) for k, src, v in got["files"][p]})
-            e = sorted({json.dumps(x) for x in exp["files"][p]})
+            # the identifiers of an expression as a sorted list: their order inside an expression is immaterial to the property
+            g = sorted({json.dumps([k, src, sorted(keys_of_rendered(v)) if k == "L" else v]) for k, src, v in got["files"][p]})
+            e = sorted({json.dumps([k, src, sorted(v) if k == "L" else v]) for k, src, v in exp["files"][p]})
             if g != e:
                 return "attribution: %s: the tool attributes %s, the sources and precedence rules give %s" % (
                     p, [json.loads(x) for x in g if x not in e], [json.loads(x) for x in e if x not in g])
@@ -810,6 +853,11 @@ class E2EModelStream(Stream):
         if ln is not None and ln[0] == "f" and ["LICENSES", "LICENSES"] in got["bad"]:
             return ("licenses-regular-file: a regular file called LICENSES is itself read as a licence text named 'LICENSES' "
                     "(bad %s, unused %s)" % (got["bad"], got["unused"]))
+        for p in exp["nocop"]:
+            cs = [v for k, src, v in got["files"].get(p, []) if k == "C"]
+            if len(cs) >= 2 and not any(cs) and p not in got["nocop"]:
+                return ("empty-notices-joined: %s has %d copyright lines, all of them the empty string, and is not reported as lacking "
+                        "a copyright notice (one empty string is)" % (p, len(cs)))
         if (got["exit"] == 0) != (not exp["violated"]):
             kind = rc.diff_kind({"lic": exp["lic_names"]}, got, exp, CATS)
             if kind and not kind.startswith("category-mismatch"):
@@ -824,6 +872,8 @@ class E2EModelStream(Stream):
             return "extensionless-id-with-identifier-stem"
         if failure.startswith("licenses-regular-file"):
             return "licenses-is-a-regular-file"
+        if failure.startswith("empty-notices-joined"):
+            return "several-empty-copyright-strings"
         return None
 
     def nontrivial(self, case, impl_out):
